@@ -219,6 +219,11 @@ class Translator:
             if to in ("BIGINT", "INT", "INTEGER", "INT8", "HUGEINT") and t == "int":
                 return a, "int"  # the model's integers are unbounded: a cast between integer types is the identity (overflow is outside the model)
             raise Untranslatable(f"cast of a {t} value to {to}")
+        if isinstance(e, exp.Log) and isinstance(e.this, exp.Literal) and not e.this.is_string and e.this.this == "2" and e.expression is not None:
+            a, t = self.expr_t(e.expression, scope)
+            if t not in ("int", "rat"):
+                raise Untranslatable(f"log2 of a {t} value: {e.sql()[:60]}")
+            return f"(Expr.log2 {a})", "rat"  # uninterpreted in the model (Val.log2): only `same argument -> same value` is available to proofs
         raise Untranslatable(f"expression {type(e).__name__}: {e.sql()[:80]}")
 
     def agg(self, e, scope):
@@ -2234,9 +2239,225 @@ def write_bcount() -> list[str]:
     return errors
 
 
+# --------------------------------------------------------------------------------------------------------------- scoring (predict) spec
+SC_THR = 1.4375  # threshold_match_weight of the capture runs: its text occurs nowhere else in the statements
+SC_CV, SC_PARTS, SC_PREDICT, SC_PAIRS = "__splink__df_comparison_vectors", "__splink__df_match_weight_parts", "__splink__df_predict", "blocked_with_cols"
+# marker models: per comparison the levels in the listed order, ("null",) | ("lvl", m, u) and the final ("else", m, u); the condition of level
+# k of comparison c is the MARKER `zzc<c>k<k>` (a bare column name: it stands for an arbitrary condition the user wrote)
+SC_MODELS = {
+    "A": {"link_type": "dedupe_only", "prior": 0.2, "comps": [[("lvl", 0.9, 0.125), ("else", 0.1, 0.875)]]},
+    "B": {"link_type": "dedupe_only", "prior": 0.3, "comps": [[("null",), ("lvl", 0.7, 0.1), ("lvl", 0.2, 0.0), ("else", 0.1, 0.8)], [("lvl", 0.6, 0.3), ("else", 0.4, 0.7)]]},
+    "C": {"link_type": "link_only", "prior": 0.15, "comps": [[("lvl", 0.5, 0.0625), ("null",), ("lvl", 0.3, 0.25), ("lvl", 0.15, 0.3), ("else", 0.05, 0.4)], [("lvl", 0.8, 0.3), ("else", 0.2, 0.6)],
+                                                             [("null",), ("lvl", 0.65, 0.2), ("else", 0.35, 0.9)]]},
+}
+# the same shape as A with other numbers: the statements may differ in these literals only
+SC_MODEL_A2 = {"link_type": "dedupe_only", "prior": 0.45, "comps": [[("lvl", 0.55, 0.0), ("else", 0.45, 0.75)]]}
+
+
+def _score_settings(model):
+    comps = []
+    for ci, levels in enumerate(model["comps"]):
+        ls = []
+        for li, l in enumerate(levels):
+            if l[0] == "null":
+                ls.append({"sql_condition": f"zzc{ci}k{li}", "label_for_charts": f"n{li}", "is_null_level": True})
+            elif l[0] == "lvl":
+                ls.append({"sql_condition": f"zzc{ci}k{li}", "label_for_charts": f"l{li}", "m_probability": l[1], "u_probability": l[2]})
+            else:
+                ls.append({"sql_condition": "ELSE", "label_for_charts": "else", "m_probability": l[1], "u_probability": l[2]})
+        comps.append({"output_column_name": f"zzq{ci}", "comparison_levels": ls})
+    return {"link_type": model["link_type"], "probability_two_random_records_match": model["prior"], "blocking_rules_to_generate_predictions": [],
+            "retain_matching_columns": False, "retain_intermediate_calculation_columns": True, "comparisons": comps}
+
+
+def _score_sqls(model, thr):
+    """The statements `Linker.inference.predict` enqueues for scoring (inference.py: the two builder calls, same arguments), from the pure SQL
+    builders on a Settings object of the DuckDB dialect.  -> (settings object, [(output name, normalised sql)])"""
+    import logging
+
+    logging.disable(logging.CRITICAL)
+    from splink.internals.comparison_vector_values import compute_comparison_vector_values_from_id_pairs_sqls
+    from splink.internals.dialects import SplinkDialect
+    from splink.internals.predict import predict_from_comparison_vectors_sqls_using_settings
+    from splink.internals.settings_creator import SettingsCreator
+
+    s = SettingsCreator.from_path_or_dict(_score_settings(model)).get_settings("duckdb")
+    sqls = compute_comparison_vector_values_from_id_pairs_sqls(
+        s._columns_to_select_for_blocking,
+        s._columns_to_select_for_comparison_vector_values,
+        input_tablename_l="__splink__df_concat_with_tf",
+        input_tablename_r="__splink__df_concat_with_tf",
+        source_dataset_input_column=s.column_info_settings.source_dataset_input_column,
+        unique_id_input_column=s.column_info_settings.unique_id_input_column,
+    )
+    sqls += predict_from_comparison_vectors_sqls_using_settings(s, None, thr, sql_infinity_expression=SplinkDialect.from_string("duckdb").infinity_expression)
+    return s, [(q["output_table_name"], _norm(q["sql"])) for q in sqls]
+
+
+def _score_levels(s):
+    """what the Settings object says about the levels: per comparison [(is_else, marker | None, cvv, Bayes-factor text as `_bayes_factor_sql` prints it)]"""
+    import math
+
+    out = []
+    for cc in s.core_model_settings.comparisons:
+        ls = []
+        for cl in cc.comparison_levels:
+            bf = cl._bayes_factor
+            ls.append((bool(cl._is_else_level), None if cl._is_else_level else cl.sql_condition.strip(), int(cl.comparison_vector_value),
+                       "Infinity" if bf == math.inf else f"{bf}", bool(cl.is_null_level)))
+        out.append(ls)
+    return out
+
+
+def _score_mask(sqls, s):
+    """statements with every parameter literal (Bayes factors, prior odds) replaced by a placeholder: what may NOT differ between two models of one shape"""
+    from splink.internals.misc import prob_to_bayes_factor
+
+    texts = {t for ls in _score_levels(s) for (_, _, _, t, isnull) in ls if not isnull}
+    texts.add(f"{prob_to_bayes_factor(s.core_model_settings.probability_two_random_records_match)}")
+    out = []
+    for nm, sql in sqls:
+        for t in sorted(texts, key=len, reverse=True):
+            sql = re.sub(r"(?<![0-9A-Za-z_.'])'?" + re.escape(t) + r"'?(?![0-9A-Za-z_.])", "<num>", sql)
+        out.append((nm, sql))
+    return out
+
+
+def capture_score():
+    """-> dict(shapes={tag: dict(model, levels, prior_text, plain=[(name, sql)], thr=[(name, sql)], pair_cols)}, errors)"""
+    import sqlglot
+
+    from splink.internals.misc import prob_to_bayes_factor
+
+    errors = []
+    shapes = {}
+    for tag, model in SC_MODELS.items():
+        s, plain = _score_sqls(model, None)
+        _, withthr = _score_sqls(model, SC_THR)
+        names = [nm for nm, _ in plain]
+        if names != [SC_PAIRS, SC_CV, SC_PARTS, SC_PREDICT] or [nm for nm, _ in withthr] != names:
+            errors.append(f"shape {tag}: the scoring pipeline issues {names}, expected {[SC_PAIRS, SC_CV, SC_PARTS, SC_PREDICT]}")
+            continue
+        if plain[:3] != withthr[:3]:
+            errors.append(f"shape {tag}: statements before {SC_PREDICT} depend on the threshold")
+        levels = _score_levels(s)
+        prior_text = f"{prob_to_bayes_factor(model['prior'])}"
+        texts = [t for ls in levels for (_, _, _, t, isnull) in ls if not isnull and t != "Infinity"] + [prior_text, repr(SC_THR)]
+        if len(set(texts)) != len(texts) or any(not re.fullmatch(r"\d+\.\d+", t) or t in ("1.0", "0.0") for t in texts):
+            errors.append(f"shape {tag}: the marker numbers are not distinct plain decimals: {texts}")
+        for ls in levels:
+            if not ls or not ls[-1][0] or any(e for e, *_ in ls[:-1]):
+                errors.append(f"shape {tag}: a comparison does not end with its only ELSE level")
+        # the threshold variant = the plain statement + the WHERE clause, and the WHERE clause tests the very expression selected as match_weight
+        p_sql, t_sql = plain[3][1], withthr[3][1]
+        m = re.fullmatch(r"select (log2\(.*?\)) as match_weight, (.*)", p_sql)
+        if not m:
+            errors.append(f"shape {tag}: {SC_PREDICT} does not start with `select log2(...) as match_weight`: {p_sql[:120]}")
+        elif t_sql != f"{p_sql} where {m.group(1)} >= {SC_THR!r}":
+            errors.append(f"shape {tag}: with a threshold {SC_PREDICT} is not the unfiltered statement + ` where <the match_weight expression> >= <threshold>`: {t_sql[-200:]}")
+        try:
+            pair_cols = [e.alias_or_name for e in sqlglot.parse_one(plain[0][1], read="duckdb").expressions]
+        except Exception as e:  # noqa: BLE001
+            errors.append(f"shape {tag}: {SC_PAIRS} does not parse: {e}")
+            continue
+        shapes[tag] = {"model": model, "levels": levels, "prior_text": prior_text, "plain": plain[1:], "thr": withthr[3], "pair_cols": pair_cols}
+    # parameters are only parameters: a second model of shape A with other numbers gives the same statements up to the number literals
+    sa, qa = _score_sqls(SC_MODELS["A"], SC_THR)
+    sb, qb = _score_sqls(SC_MODEL_A2, SC_THR)
+    if _score_mask(qa, sa) != _score_mask(qb, sb):
+        diff = [(x, y) for x, y in zip(_score_mask(qa, sa), _score_mask(qb, sb)) if x != y]
+        errors.append(f"two models of one shape give statements that differ in more than the Bayes-factor / prior literals: {str(diff[:1])[:500]}")
+    return {"shapes": shapes, "errors": errors}
+
+
+def write_score() -> list[str]:
+    """(Re)generate Generated/ScoreSql.lean from the scoring statements the code emits now.  Returns error strings."""
+    cap = capture_score()
+    errors = list(cap["errors"])
+    L = []
+    L.append("import SplinkVerif.Model.ScoreSql")
+    L.append("/-! GENERATED by harness/translate/tsql.py from the SQL that `comparison_vector_values.py: compute_comparison_vector_values_from_id_pairs_sqls`")
+    L.append("(2nd statement) and `predict.py: predict_from_comparison_vectors_sqls` emit on the current tree for marker models WITHOUT term-frequency")
+    L.append("adjustments (DuckDB dialect, retain_matching_columns = False, retain_intermediate_calculation_columns = True).  Do not edit.")
+    L.append("")
+    L.append(f"Base table: `{SC_PAIRS}` (the blocked pairs with the columns of both records; the id columns come first).  Parameters: `c<i>k<j>` = the")
+    L.append("condition of level j of comparison i (an arbitrary `Expr` over that row), `b<i>_<j>` = its Bayes-factor literal, `prior` = the prior-odds")
+    L.append("literal, `thr` = the threshold literal, `inf` = float8 +infinity (`cast('Infinity' as float8)`, `'infinity'`).")
+    L.append("Every `generic_*` theorem checks by `rfl` that the hand-written generic form (Model/ScoreSql.lean) instantiated at the shape of a capture run")
+    L.append("IS the translation of the captured SQL. -/")
+    L.append("set_option linter.unusedVariables false")
+    L.append("namespace SplinkVerif.Gen.ScoreSql")
+    L.append("open SplinkVerif.Rel")
+    L.append("")
+    for tag, sh in cap["shapes"].items():
+        levels = sh["levels"]
+        colparams, params, evars, bvars, insts = {}, {"Infinity": ("inf", "rat"), "infinity": ("inf", "rat"), sh["prior_text"]: ("prior", "rat"), repr(SC_THR): ("thr", "rat")}, [], [], []
+        for ci, ls in enumerate(levels):
+            lv = []
+            for li, (is_else, marker, cvv, bft, isnull) in enumerate(ls):
+                if isnull:
+                    b = "(Val.rat ((1 : Rat) / 1))"
+                elif bft == "Infinity":
+                    b = "inf"
+                else:
+                    b = f"b{ci}_{li}"
+                    params[bft] = (b, "rat")
+                    bvars.append(b)
+                if is_else:
+                    insts.append(f"⟨[{', '.join(lv)}], {cvv}, {b}⟩")
+                else:
+                    v = f"c{ci}k{li}"
+                    colparams[marker] = v
+                    evars.append(v)
+                    lv.append(f"⟨{v}, {cvv}, {b}⟩")
+        nid = next((i for i, c in enumerate(sh["pair_cols"]) if c.lower().startswith("zz")), len(sh["pair_cols"]))
+        if not all(re.fullmatch(r"(unique_id|source_dataset)_[lr]", c) for c in sh["pair_cols"][:nid]) or any(re.fullmatch(r"(unique_id|source_dataset)_[lr]", c) for c in sh["pair_cols"][nid:]):
+            errors.append(f"shape {tag}: the id columns are not the leading columns of {SC_PAIRS}: {sh['pair_cols']}")
+        schemas, types = {SC_PAIRS: list(sh["pair_cols"])}, {SC_PAIRS: ["any"] * len(sh["pair_cols"])}
+        binder = (f" ({' '.join(evars)} : Expr)" if evars else "") + f" ({' '.join(bvars + ['inf', 'prior', 'thr'])} : Val)"
+        args = " ".join(evars + bvars + ["inf", "prior", "thr"])
+        L.append(f"/-! ### shape {tag}: {sh['model']['link_type']}, levels per comparison {[len(ls) for ls in levels]} (comparison-vector values {[[l[2] for l in ls] for ls in levels]}) -/")
+        L.append(f"namespace {tag}")
+        ok = True
+        for lean_name, (nm, sql), register in [("cv", sh["plain"][0], True), ("parts", sh["plain"][1], True), ("predict", sh["plain"][2], False), ("predictThr", sh["thr"], False)]:
+            tr = Translator(schemas, params, types, colparams)
+            try:
+                term, cols = tr.statement(sql)
+            except Untranslatable as e:
+                errors.append(f"shape {tag}/{nm}: {e}")
+                L.append(f"-- UNTRANSLATABLE: {nm}: {sql}")
+                ok = False
+                continue
+            if register:
+                schemas[nm] = [c if c is not None else f"_c{i}" for i, c in enumerate(cols)]
+                types[nm] = list(tr.out_types)
+            L.append(f"/-- `{nm}`: `{sql}` ; columns {list(cols)} -/")
+            L.append(f"def {lean_name}{binder} : Rel :=\n  {term}")
+            L.append("")
+        if ok:
+            cs = "[" + ", ".join(insts) + "]"
+            L.append(f"theorem generic_cv{binder} : SplinkVerif.ScoreSql.cvStmt {nid} {cs} = cv {args} := rfl")
+            L.append(f"theorem generic_parts{binder} : SplinkVerif.ScoreSql.partsStmt {nid} {cs} = parts {args} := rfl")
+            L.append(f"theorem generic_predict{binder} : SplinkVerif.ScoreSql.predictStmt {nid} inf prior none {cs} = predict {args} := rfl")
+            L.append(f"theorem generic_predictThr{binder} : SplinkVerif.ScoreSql.predictStmt {nid} inf prior (some thr) {cs} = predictThr {args} := rfl")
+        L.append(f"end {tag}")
+        L.append("")
+    if set(cap["shapes"]) != set(SC_MODELS):
+        errors.append(f"captured shapes {sorted(cap['shapes'])}, expected {sorted(SC_MODELS)}")
+    L.append("/-- names of the statements, as emitted -/")
+    L.append("def stmtNames : List String := [" + ", ".join(lean_str(nm) for nm in (SC_CV, SC_PARTS, SC_PREDICT)) + "]")
+    L.append("")
+    L.append("end SplinkVerif.Gen.ScoreSql")
+    text = "\n".join(L) + "\n"
+    p = GEN / "ScoreSql.lean"
+    if not p.exists() or p.read_text() != text:
+        p.write_text(text)
+    return errors
+
+
 # --------------------------------------------------------------------------------------------------------------- isolation
 WRITERS = {"cc": "write_cc", "multi": "write_multi", "gm": "write_gm", "acc": "write_acc", "desc": "write_desc", "em": "write_em", "block": "write_block", "oto": "write_oto",
-           "bcount": "write_bcount"}
+           "bcount": "write_bcount", "score": "write_score"}
 
 
 def run_isolated(which: str, timeout: int = 600) -> list[str]:
